@@ -15,6 +15,16 @@ Theorem C14_crc24q_table_correct : crc24q_table_src = crc24q_table_computed.
 Proof. exact crc24q_table_correct. Qed.
 Print Assumptions C14_crc24q_table_correct.
 
+(* The constants regenerated from rtcm_framer.cc on every run (preamble, header and CRC sizes, 10-bit length
+   mask, message-number shift, CRC init/mask, SetBuffer clamp and alignment) are those of the RTCM 3 transport
+   layer the SPEC is written with. *)
+Theorem C14_source_constants :
+  RTCM_PREAMBLE = SPEC_PREAMBLE /\ RTCM_HEADER_BYTES = SPEC_HEADER_BYTES /\ RTCM_CRC_BYTES = SPEC_CRC_BYTES /\
+  RTCM_MAX_PAYLOAD = SPEC_MAX_PAYLOAD /\ RTCM_LEN_MASK = SPEC_LEN_MASK /\ RTCM_TYPE_SHIFT = SPEC_TYPE_SHIFT /\
+  RTCM_CRC_INIT = 0 /\ RTCM_CRC_MASK = 16777215 /\ RTCM_CLAMP = 2147483647 /\ RTCM_ALIGN_MASK = 3.
+Proof. exact rtcm_consts_agree. Qed.
+Print Assumptions C14_source_constants.
+
 (* CRC24Hash() as written (32-bit accumulator, table lookup, final mask) is the bit-serial CRC-24Q. *)
 Theorem C14_crc24_hash_is_crc24q : forall l, Forall (fun b => b < 256) l -> crc24_hash l = crc24q l.
 Proof. exact crc24_hash_eq_spec. Qed.
@@ -27,7 +37,7 @@ Proof. exact rtcm_judge_ok_local. Qed.
 Print Assumptions C14_judge_ok.
 
 Theorem C14_accept_means : forall cap l n, judge_rtcm cap l = Accept n ->
-  nth 0 l 0 = RTCM_PREAMBLE /\ (3 <= length l)%nat /\
+  nth 0 l 0 = SPEC_PREAMBLE /\ (3 <= length l)%nat /\
   n = Nat.add (N.to_nat (rtcm_len (nth 1 l 0) (nth 2 l 0))) 6 /\ (n <= length l)%nat /\ N.of_nat n <= cap /\
   crc24q (firstn (n - 3) l) = be (Bytes.sub l (n - 3) 3).
 Proof. exact judge_rtcm_accept_inv. Qed.
